@@ -49,6 +49,8 @@ def handle (fn0 : String) (a : List Float) : Option (List Float) :=
   | "angleAxis", [t, x, y, z] => some (m2l (Rotation.fromAngleAboutNonUnitVector sqrt (trig (t / 2)) ⟨x, y, z⟩))
   | "toAngleAxis", [r0, r1, r2, r3, r4, r5, r6, r7, r8] =>
     some (q2l (Rotation.toAngleAxis sqrt atan2 pi epsSq ⟨r0, r1, r2, r3, r4, r5, r6, r7, r8⟩))
+  | "quatFromAngleAxis", [t, x, y, z] =>
+    some (q2l (Quaternion.fromAngleAxis (trig (t / 2)) (Vec3.normalize sqrt ⟨x, y, z⟩)))
   | "quatToAngleAxis", [w, x, y, z] => some (q2l (Quaternion.toAngleAxis sqrt atan2 pi epsSq ⟨w, x, y, z⟩))
   | "toOne", [x, r0, r1, r2, r3, r4, r5, r6, r7, r8] =>
     some [Rotation.toOneAngle atan2 ⟨r0, r1, r2, r3, r4, r5, r6, r7, r8⟩ (ax x)]
